@@ -156,18 +156,26 @@ structure LoopSpec where
 
 def LoopSpec.key (s : LoopSpec) : String := s.ident ++ "-" ++ s.iterText
 
+/-- `self._to_int(self.limit.evaluate(context), …) if self.limit else None` -/
+def evalLimit : Option Arg → Except Err (Option Int)
+  | none => .ok none
+  | some a => (toInt a).map some
+
+/-- the `offset` part of `evaluate`: `none` = "continue", `some none` = None, `some (some o)` = an int -/
+def evalOffset : Offset → Except Err (Option (Option Int))
+  | .absent => .ok (some none)
+  | .continue_ => .ok none
+  | .val a => (toInt a).map (fun o => some (some o))
+
 /-- `LoopExpression.evaluate` -/
 def evaluate (stringSequences : Bool) (m : StopIndex) (s : LoopSpec) : Except Err Sliced :=
-  let (its, length) := toIter stringSequences s.obj
-  match (match s.limit with | none => Except.ok none | some a => (toInt a).map some) with
+  match evalLimit s.limit with
   | .error e => .error e
   | .ok limit =>
-    match (match s.offset with
-           | .absent => Except.ok (some none)
-           | .continue_ => Except.ok none
-           | .val a => (toInt a).map (fun o => some (some o))) with
+    match evalOffset s.offset with
     | .error e => .error e
-    | .ok offset => slice m s.key its length limit offset s.reversed
+    | .ok offset =>
+      slice m s.key (toIter stringSequences s.obj).1 (toIter stringSequences s.obj).2 limit offset s.reversed
 
 /-! ### `ForLoop` — the `forloop` drop -/
 
